@@ -459,10 +459,7 @@ class ModelFittingDataTree(ProblemSingleObjective):
 
                 if self.weighting is not None:
                     weighting = np.full(
-                        shape=(
-                            processor.detector.geometry.row,
-                            processor.detector.geometry.col,
-                        ),
+                        shape=target_data.shape,
                         fill_value=self.weighting[processor_id],
                     )
                 elif self.weighting_from_file is not None:
